@@ -322,6 +322,46 @@ func init() {
 		f.nat("BlockTypeContractSend", nom.BlockTypeContractSend)
 		f.nat("BlockTypeContractReceive", nom.BlockTypeContractReceive)
 
+		// verifier/account_block.go amounts(): negative send amounts rejected, BitLen() bound
+		verPkg, err := parsePkgDir(filepath.Join(repo, "verifier"))
+		if err != nil {
+			return nil, err
+		}
+		vfd, vrecv, err := verPkg.method("accountBlockVerifier", "amounts")
+		if err != nil {
+			return nil, err
+		}
+		negRejected, bitLen := false, -1
+		ast.Inspect(vfd.Body, func(n ast.Node) bool {
+			ifs, ok := n.(*ast.IfStmt)
+			if !ok {
+				return true
+			}
+			be, ok := ifs.Cond.(*ast.BinaryExpr)
+			if !ok || len(ifs.Body.List) != 1 {
+				return true
+			}
+			if _, isRet := ifs.Body.List[0].(*ast.ReturnStmt); !isRet {
+				return true
+			}
+			lhs, rhs := verPkg.exprString(be.X), verPkg.exprString(be.Y)
+			if lhs == vrecv+".block.Amount.Sign()" && be.Op == token.EQL && rhs == "-1" {
+				negRejected = true
+			}
+			if lhs == vrecv+".block.Amount.BitLen()" && be.Op == token.GTR {
+				if v, err := strconv.Atoi(rhs); err == nil {
+					bitLen = v
+				}
+			}
+			return true
+		})
+		if bitLen < 0 {
+			return nil, fmt.Errorf("verifier amounts(): no `Amount.BitLen() > N` rejection found")
+		}
+		f.raw("-- verifier/account_block.go (abv *accountBlockVerifier) amounts(): `Amount.Sign() == -1` and `Amount.BitLen() > N` are rejected\n")
+		f.raw("def abAmountNegativeRejected : Bool := %v\n", negRejected)
+		f.nat("abAmountMaxBitLen", bitLen)
+
 		f.raw("\n-- chain/nom/account_block.go: (ab *AccountBlock) ComputeHash — ordered JoinBytes arguments\n")
 		abh, err := nomPkg.joinBytesFields("AccountBlock", "ComputeHash")
 		if err != nil {
